@@ -13,7 +13,9 @@ PROP = {
                'as a violation. The veto-racing-a-close test decides "the connection is closed" with a 4 s grace period during which the '
                'server demonstrably keeps serving new requests.',
  'rule': 'Case = fastOpen x logger x 1-2 users x 1-3 proxied connections x 1-3 segments; per connection a list of clientWrite / '
-         'targetWrite / sync ops, an optional terminal event (client close, target close, target shutdown(WR), target read error after '
+         'targetWrite / sync / client-deadline ops (SetReadDeadline or SetDeadline in the past or 3 ms ahead, cleared after a Read timed out), '
+         'optionally a slow dial (Outbound.TCP parked; with fast open a Read times out and a write happens before the response exists), '
+         'an optional terminal event (client close, target close, target shutdown(WR), target read error after '
          'drain, target reset dropping queued bytes) with 0-2 writes of the other side racing it, or a dial failure with a 0..2048-byte '
          'message; veto cases script LogTraffic call k (1..10, one-shot or sticky) of one user whose connections only write/sync. '
          'Non-trivial: some connection carries >= 2 chunks in both directions and the case contains a terminal event, dial failure or '
@@ -23,6 +25,7 @@ PROP = {
          'closes the two ends and 2-8 new relays of the same/another user move their own bytes (TeardownWindow, 1-3 windows per case).',
  'assumptions': ['the target connection behaves like the fake: Write never blocks, Close unblocks a pending Read, EOF/error may be returned together with the last bytes',
                  'the TrafficLogger and the EventLogger do not block (except at the scripted yield points of the veto-race and teardown-window tests) and is keyed by the id the Authenticator returned',
+                 'client-side read deadlines expire either before the response exists (parked dial) or after it was consumed (fast open: after the first payload byte); a deadline expiring in the middle of the response frame is outside the quantifier and not generated',
                  'no RequestHook is configured (the accounting clause of the statement is restricted to un-hooked connections)',
                  '"one chunk in flight" = the relay copy buffer (32 KiB, read from copyBufPool), per direction and per torn-down relay',
                  'client-side rx totals are only a lower bound of "forwarded" once the client closed a connection before reading to its end or the user was vetoed; the upper accounting bound for rx is checked only otherwise'],
